@@ -4,6 +4,12 @@ import json
 props = [json.loads(l) for l in open('/verif/properties.jsonl')]
 ASSUME = "Trusted base: the simulator (simrt scheduler, simetcd/simnet/simdisk/simtikv models), the go/ast rewrite (R1-R5) of a scratch copy of /repo, the deterministic-runtime overlay, and the oracle code. etcd, gRPC, TiKV and the OS clock are models; interleavings are explored at seams only; sampling, not proof."
 claimed = {
+ "C16": dict(level="exploration", engine="e2", design="7/C16",
+   text="Two modes under the seeded scheduler: the real change-log buffer (capacities 1..300) driven by random record bursts / reads inside, at the edges and outside the window / resets / restarts and compared record by record with a slice model; and a leader-side and a follower-side real RegionSyncer connected through the simulated network (0..333 regions, with/without leaders, flow statistics; full sync, then incremental changes with follower stream restarts). Oracles: every batch the leader sends pairs each region with the leader peer and flow it holds for that version; the follower ends with exactly the newest record delivered for every region; a full sync covers every region.",
+   technique="deterministic simulation with a reference log model and send/deliver history oracles on the simulated stream"),
+ "C17": dict(level="fault_enumeration", engine="e2", design="7/C17",
+   text="Real core.Storage / RegionStorage / BasicCluster over simulated etcd and disk. etcd backend: 0..250 (thorough: 10500) items around every paging boundary, dense/sparse/huge/top-of-range ids, weights, deletes, large keys and injected message-too-large errors forcing the adaptive page size down; full load = saved-and-not-deleted multiset. Region storage backend: groups of 8 runs share a save/delete/flush history and run k stops the process right after the k-th Flush returned; a fresh instance must load everything covered by a returned Flush/Close. Prune: split/merge histories leaving stale overlapping records; after LoadRegionsOnce storage and cache describe the same non-overlapping set.",
+   technique="deterministic simulation with enumerated stop points between region-storage batches and reference multiset/model comparison"),
  "C05": dict(level="exploration", engine="e1", design="7/C05",
    text="Seeded search: 3 real PD members in 1-3 dc-locations with Local TSO enabled (real local-allocator election loops and the real estimate / SyncMaxTS / differentiate protocol over the simulated network), optionally a datacenter joining later, local clients per datacenter and global clients, optionally under crash / partition / etcd-leader-move / net-cut / resign. Oracles: timestamps of different allocators never equal; global above every local completed before it began and local after a completed global above it; suffix per dc assigned once, unique, and the reported suffix width covers every suffix assigned before the request; per-allocator C01 order/uniqueness. Several genuine gaps of the (experimental) Local TSO feature around stale in-memory dc-location/suffix views are listed as known findings; one (duplicate Global TSO for concurrent requests) was repaired.",
    technique="deterministic simulation with cross-allocator history oracle"),
